@@ -1,0 +1,38 @@
+//! Verification hooks (compiled only with `--cfg brc20_prog_verif`).
+//!
+//! Re-exports crate-private items so that an external harness can drive the engine, the
+//! storage components, the codecs and the precompiles directly. Nothing here changes behaviour.
+#![allow(missing_docs)]
+
+pub use crate::api::types::{decode_bytes_from_inscription_data, select_bytes};
+pub use crate::api::INDEXER_METHODS;
+pub use crate::brc20_controller::BRC20_CONTROLLER_ADDRESS;
+pub use crate::db::types::*;
+pub use crate::db::{
+    BlockCachedDatabase, BlockDatabase, BlockHistoryCache, BlockHistoryCacheData,
+    Brc20ProgDatabase,
+};
+pub use crate::engine::{
+    bip322_verify_precompile, btc_tx_details_precompile, get_evm_address_from_pkscript,
+    get_locked_pkscript_precompile, get_op_return_tx_id_precompile, last_sat_location_precompile,
+    BRC20ProgEngine, PrecompileCall,
+};
+pub use crate::global::database::{validate_config_database, ConfigDatabase};
+pub use crate::global::*;
+pub use crate::server::verif_rpc_methods;
+use crate::types::{Base64Bytes, RawBytes};
+
+/// Replace the process-global configuration.
+pub fn set_config(config: crate::Brc20ProgConfig) {
+    CONFIG.write_fn_unchecked(|c| *c = config);
+}
+
+/// `Base64Bytes::value` (crate-private) for the harness.
+pub fn base64_value(b: &Base64Bytes) -> Option<alloy::primitives::Bytes> {
+    b.value()
+}
+
+/// `RawBytes::value` (crate-private) for the harness.
+pub fn raw_value(b: &RawBytes) -> Option<alloy::primitives::Bytes> {
+    b.value()
+}
